@@ -207,8 +207,13 @@ def check(ctx):
             r1.bad(V(r1.id, "EventParser::handle_method_call", "recursion:receiver=%s,args=%s" % (recv_ok, args_ok), "method calls: receiver walked=%s, arguments walked=%s" % (recv_ok, args_ok)))
         # the recursion is unconditional (not only for emit calls)
     st = S.fn("EventParser", "extract_events_from_stmt")
+    if st is None:
+        # the statement walk folded into the block walk (the helper was inlined into its only caller): same arms, one function up
+        blk_ = S.fn("EventParser", "extract_events_from_block")
+        if blk_ is not None and any(e.get("k") == "match" and any("Stmt::" in pat_text(a["pat"]) for a in e["arms"]) for e in walk_block(blk_.body)):
+            st = blk_
     if st is not None:
-        m = [e for e in walk_block(st.body) if e.get("k") == "match"]
+        m = [e for e in walk_block(st.body) if e.get("k") == "match" and any("Stmt::" in pat_text(a["pat"]) for a in e["arms"])] or [e for e in walk_block(st.body) if e.get("k") == "match"]
         pats = [pat_text(a["pat"]) for a in m[0]["arms"]] if m else []
         has_expr = any(p.startswith("syn::Stmt::Expr") or p.startswith("Stmt::Expr") for p in pats)
         has_local = any("Stmt::Local" in p for p in pats)
